@@ -534,3 +534,99 @@ func TestC05SetFunctions(t *testing.T) {
 	}
 	vWriteJSON(t, "VERIF_OUT", map[string]interface{}{"evaluations": evals, "bad": bads})
 }
+
+// Group by several fields: a group is a tuple of values, a field a line lacks is an empty position of the tuple - lines
+// (x=a, y missing) and (x missing, y=a) belong to different groups.  Central evaluation: counts and sums per distinct tuple.
+func TestC05GroupByTuple(t *testing.T) {
+	vInit("none")
+	c05Install()
+	dir, _ := os.MkdirTemp("", "c05g-")
+	defer os.RemoveAll(dir)
+	rng := rand.New(rand.NewSource(vSeed()))
+	type bad struct {
+		Query string              `json:"query"`
+		Lines []string            `json:"lines"`
+		Want  map[string][]string `json:"want"`
+		Got   [][]string          `json:"got"`
+	}
+	var bads []bad
+	evals := 0
+	for round := 0; round < 6; round++ {
+		outfile := filepath.Join(dir, fmt.Sprintf("tuple%d.csv", round))
+		nkeys := 2 + round%2
+		keys := []string{"x", "y", "z"}[:nkeys]
+		sel := append([]string{"count($line)", "sum(n)"}, keys...)
+		qs := "select " + strings.Join(sel, ",") + " group by " + strings.Join(keys, ",") + " logformat generickv outfile \"" + outfile + "\""
+		query, err := mapr.NewQuery(qs)
+		if err != nil {
+			t.Fatal(err)
+		}
+		var lines []string
+		type agg struct {
+			cnt int
+			sum int
+			vals []string
+		}
+		want := map[string]*agg{}
+		for i := 0; i < 14; i++ {
+			parts := []string{fmt.Sprintf("n=%d", i+1)}
+			vals := []string{}
+			for _, k := range keys {
+				v := []string{"a", "b", "", "a"}[rng.Intn(4)] // "" = the line lacks the field
+				vals = append(vals, v)
+				if v != "" {
+					parts = append(parts, k+"="+v)
+				}
+			}
+			lines = append(lines, strings.Join(parts, "|"))
+			tk := strings.Join(vals, "\x00")
+			if want[tk] == nil {
+				want[tk] = &agg{vals: vals}
+			}
+			want[tk].cnt++
+			want[tk].sum += i + 1
+		}
+		m1, p1 := c05Server(qs, [][]string{lines[:5], lines[5:9]}, "")
+		m2, p2 := c05Server(qs, [][]string{lines[9:]}, "")
+		if p1 != "" || p2 != "" {
+			t.Fatal(p1 + p2)
+		}
+		global := mapr.NewGlobalGroupSet()
+		c1 := client.NewAggregate("server1", query, global)
+		c2 := client.NewAggregate("server2", query, global)
+		for _, ms := range [][]string{m1[0], m2[0], m1[1]} {
+			for _, m := range ms {
+				c1.Aggregate(m)
+			}
+		}
+		_ = c2
+		if err := global.WriteResult(query, true); err != nil {
+			t.Fatal(err)
+		}
+		data, _ := os.ReadFile(outfile)
+		var rows [][]string
+		for _, l := range strings.Split(strings.TrimRight(string(data), "\n"), "\n")[1:] {
+			rows = append(rows, strings.Split(l, ","))
+		}
+		evals++
+		ws := map[string][]string{}
+		for tk, a := range want {
+			ws[strings.ReplaceAll(tk, "\x00", ",")] = append([]string{strconv.Itoa(a.cnt), fmt.Sprintf("%f", float64(a.sum))}, a.vals...)
+		}
+		ok := len(rows) == len(ws)
+		for _, r := range rows {
+			if len(r) != 2+nkeys {
+				ok = false
+				continue
+			}
+			w, have := ws[strings.Join(r[2:], ",")]
+			if !have || w[0] != r[0] || w[1] != r[1] {
+				ok = false
+			}
+		}
+		if !ok {
+			bads = append(bads, bad{qs, lines, ws, rows})
+		}
+	}
+	vWriteJSON(t, "VERIF_OUT", map[string]interface{}{"evaluations": evals, "bad": bads})
+}
